@@ -756,7 +756,9 @@ pub fn c02(ctx: &mut Ctx) -> String {
         if i < 2 {
             sample_case(ctx, &t, fam, &cfg);
         }
-        let asserts: &[&str] = if threads == 1 && iters <= 40 { &["bound", "corr"] } else { &["bound"] };
+        // short runs are also compared with the model's run (the object of the theorems); with
+        // several threads too: the model's single-threaded run is what C06 proves them equal to
+        let asserts: &[&str] = if iters <= 40 && t.size() <= 200 { &["bound", "corr"] } else { &["bound"] };
         case_solve(ctx, &solve_case(&t, &cfg, asserts));
     }
     // reaches far below machine epsilon with payoffs that make up for it: nothing in the
@@ -1137,7 +1139,20 @@ pub fn c08(ctx: &mut Ctx) -> String {
         let (t, fam) = small_game(ctx, i, 300);
         ctx.stat(&format!("family_{}", fam));
         let method = ["F", "S", "E"][(i % 3) as usize];
-        let (pn, params) = Params::pick(&mut ctx.rng);
+        let (mut pn, mut params) = Params::pick(&mut ctx.rng);
+        if i % 4 == 3 {
+            // tuples for which the ORDER of the update steps shows (match, then discount): positive
+            // regrets discounted to nothing (the next strategy must still come from them), or a
+            // finite soft-max weight (the fallback must see the undiscounted regrets)
+            params = *ctx.rng.pick(&[
+                Params { pos: -INF, neg: 0.5, strat: 2.0, nopos: 0.0 },
+                Params { pos: -INF, neg: INF, strat: 1.0, nopos: INF },
+                Params { pos: 1.5, neg: 0.5, strat: 2.0, nopos: 1.0 },
+                Params { pos: 0.0, neg: 2.0, strat: 0.0, nopos: -0.5 },
+                Params { pos: -1e3, neg: 1.0, strat: 1.0, nopos: 0.5 },
+            ]);
+            pn = "order-sensitive".to_string();
+        }
         ctx.stat(&format!("params_{}", pn));
         let seed = ctx.rng.next() >> 12;
         for (k, tt) in grid.iter().enumerate() {
